@@ -23,8 +23,9 @@ def run(prop, tier, seed, wd, t0):
     jobs = [macroh.temp_job(tier, tags), macroh.inst_job(tier, tags)]
     if tier == 'quick':
         jobs.append(macroh.select_job('sel.p3_7', (3, 7), tags=tags))
-        jobs.append(macroh.select_job('loop.two_passes_1def', (5,), passes=2, nin=1, tags=tags))
+        jobs.append(macroh.hygiene_job(tier, tags))
     else:
+        jobs.append(macroh.hygiene_job(tier, tags))
         jobs.append(macroh.select_job('sel.p3_7', (3, 7), nin=3, nbody=2, tags=tags, timeout=1500))
         jobs.append(macroh.select_job('sel.p5_5', (5, 5), nin=3, nbody=2, tags=tags, timeout=1500))
         jobs.append(macroh.select_job('loop.two_passes', (3, 7), passes=2, tags=tags, timeout=1500))
